@@ -1171,3 +1171,70 @@ def oracles_C08(ctx, hints):
                 break
     ctx.count("oracle_evaluations", n)
     return fails
+
+# =================================================================================== C13 (family-specific)
+OPTIONS = {"lengthError"}          # codec options: not decoded fields
+
+def _alt_text(v):
+    """a different value of the same kind for one public attribute, or None (lists are exercised by the histories)"""
+    if v is None:
+        return "1"
+    if isinstance(v, bool):
+        return "False" if v else "True"
+    if isinstance(v, int):
+        return str(v + 1)
+    if isinstance(v, (bytes, bytearray)):
+        return hexb(bytes(v) + b"\x55")
+    return None
+
+def check_attribute_rebuilt(args):
+    """unpack() into an object one of whose public attributes was assigned beforehand leaves the object as
+       unpack() into a new object does: every public attribute is rebuilt from the bytes"""
+    cls, f, alt, b = args["cls"], args["field"], args["alt"], args["buf"]
+    tail = ["unpack x" + b, "obs"]
+    r1 = run_line_impl(gen.H(cls, ["set %s %s" % (f, alt)] + tail)).split("|")
+    r2 = run_line_impl(gen.H(cls, tail)).split("|")
+    if r2[0].startswith("ok") and r1[1:] != r2:
+        import re
+        def val(o):
+            m = re.search(r"[{,]%s=([^,}]*)" % re.escape(f), o)
+            return m.group(1) if m else "?"
+        return "%s: after `%s = %s`, unpack(%s) leaves %s=%s; on a new object the same unpack leaves %s=%s%s" % (
+            cls, f, alt, "x" + b[:60], f, val(r1[-1]), f, val(r2[-1]),
+            "" if val(r1[-1]) != val(r2[-1]) else " (other attributes differ: %s vs %s)" % (r1[-1][:150], r2[-1][:150]))
+    return None
+
+def _attribute_cases(ctx):
+    out = []
+    seen = set()
+    for cls, b in _valid_packets(ctx):
+        if cls in seen:
+            continue
+        seen.add(cls)
+        a = ADAPTERS[cls]
+        o = a.ctor()
+        for f in a.fields:
+            if f.startswith("_") or f in OPTIONS:
+                continue
+            alt = _alt_text(a.get(o, f))
+            if alt is not None:
+                out.append({"cls": cls, "field": f, "alt": alt, "buf": b.hex()})
+    return out
+
+def corr_C13(ctx):
+    return [gen.H(c["cls"], ["set %s %s" % (c["field"], c["alt"]), "unpack x" + c["buf"], "obs", "pack", "obs"])
+            for c in _attribute_cases(ctx)]
+
+def oracles_C13(ctx, hints):
+    fails = []
+    n = 0
+    for args in _attribute_cases(ctx):
+        n += 1
+        w = check_attribute_rebuilt(args)
+        if w:
+            fails.append(Failure("attribute_rebuilt", args, w, {"class": args["cls"], "check": "history", "field": args["field"],
+                                                               "variant": "attribute_not_written_by_unpack"}))
+    ctx.count("oracle_evaluations", n)
+    return fails
+
+ORACLES["attribute_rebuilt"] = check_attribute_rebuilt
